@@ -54,7 +54,7 @@ struct Agg {
 	uint64_t prefix = ~0ull;      // every run index below this was executed (minimum over the workers)
 	std::vector<uint64_t> counters = std::vector<uint64_t>(C_COUNT, 0);
 	std::unordered_set<uint64_t> cases, fps;
-	std::vector<std::string> samples;
+	std::vector<std::string> samples; uint64_t sample_evals = 0;
 	std::map<std::string, uint64_t> env_hist;
 	std::set<std::string> known;
 	std::vector<Viol> viols;
@@ -68,7 +68,11 @@ static void agg_add(Agg& a, const RunResult& r) {
 	for (uint64_t h : r.case_hashes) a.cases.insert(h);
 	a.fps.insert(r.fingerprint);
 	for (const std::string& k : r.known_lines) a.known.insert(k);
-	if (!r.sample.empty() && a.samples.size() < 3) a.samples.push_back(r.sample);
+	// the sample of a worker: among its first 300 runs, the one that held with the most oracle evaluations
+	if (r.status == 1 && !r.sample.empty() && a.runs <= 300 && r.counters[c_oracle_evals] > a.sample_evals) {
+		a.sample_evals = r.counters[c_oracle_evals];
+		a.samples.assign(1, "a run that held (its trace, then what each step did):\n" + r.plan_text.substr(0, 2600) + (r.plan_text.size() > 2600 ? "...\n" : "") + r.sample);
+	}
 }
 
 static void agg_write(const Agg& a, const std::string& path) {
@@ -97,7 +101,7 @@ static void agg_merge_file(Agg& a, const std::string& path) {
 		else if (k == "counters") { for (size_t i = 0; i < C_COUNT; ++i) { uint64_t v = 0; is >> v; a.counters[i] += v; } }
 		else if (k == "cases") { size_t n; is >> n; for (size_t i = 0; i < n; ++i) { uint64_t v; is >> v; a.cases.insert(v); } }
 		else if (k == "fps") { size_t n; is >> n; for (size_t i = 0; i < n; ++i) { uint64_t v; is >> v; a.fps.insert(v); } }
-		else if (k == "sample") { if (a.samples.size() < 4) a.samples.push_back(unescape(line.substr(7))); }
+		else if (k == "sample") { if (a.samples.size() < 2) a.samples.push_back(unescape(line.substr(7))); }
 		else if (k == "env") { uint64_t n; is >> n; std::string rest; std::getline(is, rest); a.env_hist[rest.substr(rest.find_first_not_of(' '))] += n; }
 		else if (k == "known") a.known.insert(unescape(line.substr(6)));
 		else if (k == "harness") a.harness_msg = unescape(line.substr(8));
